@@ -455,6 +455,7 @@ class PathEnumerator:
                             e2 = dict(env)
                             for i, a in enumerate(uniq):
                                 e2["@" + self._key(a)[0]] = bool(bits >> i & 1)
+                                e2.setdefault("#" + self._key(a)[0], bool(bits >> i & 1))  # what the first guard saw (never forgotten)
                             v2 = self._eval(node.ast, e2)
                             if v2 is UNKNOWN:
                                 outs = succ
@@ -534,7 +535,21 @@ class PathEnumerator:
     def _transfer(self, st: ast.AST, env: Dict[str, Any]) -> Dict[str, Any]:
         env = dict(env)
         if self.atoms:
-            killed = _assigned_in([st]) if isinstance(st, ast.stmt) else set()
+            killed = set()
+            texts = []
+            if isinstance(st, (ast.Assign, ast.AugAssign, ast.AnnAssign)):
+                tgts = st.targets if isinstance(st, ast.Assign) else [st.target]
+                for t in tgts:
+                    for sub_ in ([t] if not isinstance(t, (ast.Tuple, ast.List)) else t.elts):
+                        if isinstance(sub_, ast.Name):
+                            killed.add(sub_.id)
+                        elif isinstance(sub_, (ast.Attribute, ast.Subscript)):
+                            texts.append(ast.unparse(sub_))
+            elif isinstance(st, ast.stmt):
+                killed = _assigned_in([st])
+            for k in [k for k in env if k.startswith("@")]:
+                if any(t in k for t in texts):
+                    del env[k]
             if killed:
                 for k in [k for k in env if k.startswith("@")]:
                     try:
